@@ -34,7 +34,7 @@ LEVEL_TEXT = "Seeded exploration of histories over generated programs with a res
 
 def generate(r, tier):
     big = tier == "thorough"
-    prog = kgen.gen_program(r, hi=20 if big else 12)
+    prog = kgen.gen_program(r, hi=20 if big else 12, p_select_member=0.08)
     sc = {"prog": prog, "parser": kgen.pick_parser(r, prog, 0.05), "hash_salt": r.getrandbits(32),
           "policy": r.choice([None, "sdkconfig", "kconfig"])}
     sc["hand"] = [kgen.handwritten(r, prog) for _ in range(r.randint(0, 1))]
